@@ -15,6 +15,8 @@ for spec in sys.argv[1:]:
     if derive: attrs["derive"] = derive
     if body: attrs["body"] = body
     if in_fn: attrs["in_fn"] = in_fn
+    # SCAFFOLD_OPAQUE=<file with the JSON list of rule-O1 abstractions> applies them to the printed text
+    if os.environ.get("SCAFFOLD_OPAQUE"): attrs["opaque"] = open(os.environ["SCAFFOLD_OPAQUE"]).read()
     if kind == "region":
         # file:region:name:impl:in_fn:from:to[:from_nth[:to_nth]]
         in_fn, frm, to = parts[4], parts[5], parts[6]
